@@ -46,6 +46,7 @@ type quiesceEvent struct {
 	Busy           int    `json:"busy"`
 	Connections    int    `json:"connections"`
 	Expected       int    `json:"expected_connections"`
+	Caches         int    `json:"caches"` // caches still registered in the engine's shared MemoryManager
 }
 
 var pidCounter uint64
@@ -134,7 +135,8 @@ func main() {
 				pl.AddConnection(s.ID, "localhost")
 				pl.ConnectionReady(s.Sess)
 				for k, j := range pool[gi] {
-					ctx := sql.NewContext(context.Background(), sql.WithSession(s.Sess), sql.WithPid(atomic.AddUint64(&pidCounter, 1)))
+					ctx := sql.NewContext(context.Background(), sql.WithSession(s.Sess), sql.WithPid(atomic.AddUint64(&pidCounter, 1)),
+						sql.WithMemoryManager(db.Engine.MemoryManager), sql.WithProcessList(pl)) // as server.SessionManager builds them
 					ctx.SetCurrentDatabase("d")
 					qctx, err := pl.BeginQuery(ctx, j.text)
 					var res eng.Result
@@ -163,7 +165,7 @@ func main() {
 				busy++
 			}
 		}
-		w.Write(quiesceEvent{Ev: "quiesce", ID: id, ThreadsRunning: statusInt("Threads_running") - run0, Busy: busy, Connections: len(procs), Expected: *gor})
+		w.Write(quiesceEvent{Ev: "quiesce", ID: id, ThreadsRunning: statusInt("Threads_running") - run0, Busy: busy, Connections: len(procs), Expected: *gor, Caches: db.Engine.MemoryManager.NumCaches()})
 		id++
 		if len(rep.Samples) < 2 {
 			rep.Samples = append(rep.Samples, map[string]interface{}{"round": r, "goroutines": *gor, "queries_each": *per, "example": pool[0][1].text})
